@@ -242,10 +242,12 @@ def codeMod (env : Env) (m : Mod) : Mod :=
 
 def funcLinked (s : State) (id : Nat) : Bool := s.done.any (·.id == id)
 
-/-- value produced by one import use of a translated module (`none`: undefined interface called) -/
+/-- value produced by one import use of a translated module (`none`: the process dies — a thunk still
+redirected to `undefined_interface`, or an external whose registered address is NULL) -/
 def observeImp (s : State) (m : Mod) (p : Name × Use) : Option Nat :=
   match p.2, m.inl.lookup p.1, m.binds.lookup p.1 with
   | .call, some id, _ => some id
+  | _, _, some (.ext 0) => none      -- external registered with address NULL: call/read through NULL
   | .ref, _, some d => some d.value
   | _, _, some (.func id) => if funcLinked s id then some id else none
   | _, _, some d => some d.value
